@@ -178,3 +178,20 @@ def run(ck):
     okt = len(tgt) == 1 and len(cps) == 1 and 'chunk_id' in cq.text(cq.call_args(cps[0])[0]) and 'target' in cq.text(cq.call_args(cps[0])[2]) and \
         bool(cl) and declref(cq, cq.call_args(cl[0])[0], tgt[0]['d']) is not None
     ck.ob('C22.elig', 'C22.elig/target-is-chunk-id', okt, cq.loc(), 'the lookup target is the chunk id')
+
+    # ---- the plan the node keeps is the plan compute_plan returned: nobody edits assignments afterwards -----------------------------------
+    from sa.flow import field_accesses as _fa22
+    PN22 = ck.prog(['src/core/Node.cpp', 'src/core/SwarmCoordinator.cpp'])
+    edits = []
+    nw = 0
+    for f in PN22.fns:
+        for i, m_, w_ in _fa22(f):
+            if not w_ or not (m_.endswith('SwarmAssignment::shard_indices') or m_.endswith('SwarmAssignment::peer') or m_.endswith('SwarmDistributionPlan::assignments')):
+                continue
+            nw += 1
+            if not (f.q == SC + 'compute_plan' or f.q.startswith(SC + 'compute_plan::$')):
+                edits.append((f, i, m_))
+    ck.floor('C22.plan', 'writes of plan assignments', nw, 2)
+    ck.ob('C22.plan', 'C22.plan/assignments-only-from-compute_plan', not edits, edits[0][0].loc(edits[0][1]) if edits else cp.loc(),
+          'SwarmAssignment::shard_indices / peer and the assignments list are written only inside SwarmCoordinator::compute_plan: a recomputed plan is not '
+          'patched with shard sets of an older plan' + ('' if not edits else ' — %s written in %s' % (edits[0][2].split('::')[-1], edits[0][0].name)))
